@@ -99,7 +99,8 @@ type Event struct {
 	At        int64 // virtual unix nanos (the clock does not move inside an operation)
 	Rec       *Rec  // encrypt: the new record; decrypt: the record read
 	Err       error
-	Out       []byte // decrypt: the returned plaintext
+	Out       []byte                       // decrypt: the returned plaintext
+	ArgAfter  *appencryption.DataRowRecord // decrypt: the record the caller handed in, as it looks after the call
 	Detail    string
 	FreshSess bool
 	// half-open index ranges into the logs covering exactly this operation
@@ -666,6 +667,7 @@ func (w *World) Decrypt(s *Sess, rec *Rec, viaLoad bool, fresh bool) (*Event, []
 	if !DRREqual(keep, before) {
 		ev.Detail = "RECORD-MODIFIED"
 	}
+	ev.ArgAfter = &keep
 	w.end(ev)
 	return ev, out
 }
